@@ -5,6 +5,8 @@ mod enc;
 mod guard;
 mod irenc;
 mod pcodegen;
+mod penc;
+mod pblockgen;
 mod elfgen;
 mod cli;
 mod par;
